@@ -49,3 +49,18 @@ Definition after_first_publication (f : fileobj) (r : ceb) : option (list Z) :=
     | OpenErr _ => Some (encode_header (fresh_header 2) ++ encode_ceb r)
     end
   end.
+
+(* ------------------------------------------------------------------ C04: ShmWriter::wipe, write by write *)
+(* File::create (O_CREAT | O_TRUNC), then one write(2) per header field, then the zeroed body.
+   A process death between (or inside) these writes leaves a prefix of the final image. *)
+Definition wipe_header : header := mkhdr MAGIC0 MAGIC1 SEGSIZE 0 0.
+Definition wipe_image : list Z := encode_header wipe_header ++ repeat 0 56.
+Definition wipe_writes : list (list Z) :=
+  [enc_u 4 MAGIC0; enc_u 4 MAGIC1; enc_u 4 SEGSIZE; enc_u 2 0; enc_u 2 0; repeat 0 56].
+
+Definition is_open_ok (r : open_result) : bool := match r with OpenOk _ => true | OpenErr _ => false end.
+
+(* every state a death during [writes] (into a truncated file) can leave behind is refused by readers *)
+Definition crash_states_refused (writes : list (list Z)) : bool :=
+  let img := concat writes in
+  forallb (fun n => negb (is_open_ok (reader_open (FFile (firstn n img))))) (seq 0 (S (length img))).
